@@ -239,6 +239,27 @@ impl PxWorld {
                     sc.swap_tokens_fixed_input(managed_token_id!(tout), managed_biguint!(1u64));
                 })
             }
+            "transfer" => {
+                // a user hands wrapped tokens to another user (plain ESDT transfer, no contract involved)
+                is_proxy_op = false;
+                who = w[1].parse().unwrap();
+                let to: u64 = w[2].parse().unwrap();
+                let (from_a, to_a) = (self.user(who), self.user(to));
+                let tok: &[u8] = if w[3] == "wlp" { WLP } else { WFARM };
+                let (n, a) = parse_pays(w[4]).remove(0);
+                let have = self.b.get_esdt_balance(&from_a, tok, n);
+                if who != to && have >= a && !a.is_zero() {
+                    let before_to = self.b.get_esdt_balance(&to_a, tok, n);
+                    let attrs: Vec<u8> = self.b.execute_in_managed_environment(|| {
+                        self.b.get_nft_attributes::<Vec<u8>>(&from_a, tok, n).unwrap_or_default()
+                    });
+                    self.b.set_nft_balance(&from_a, tok, n, &(&have - &a), &attrs);
+                    self.b.set_nft_balance(&to_a, tok, n, &(&before_to + &a), &attrs);
+                    self.b.execute_tx(&self.owner.clone(), &self.fac, &zero, |_sc| {})
+                } else {
+                    self.b.execute_esdt_transfer(&from_a, &self.fac, OTHER, 0, &pow10(40), |_sc| {})
+                }
+            }
             "addLiq" => {
                 who = w[1].parse().unwrap();
                 let c = self.user(who);
@@ -458,7 +479,7 @@ impl PxWorld {
         };
         // expected change of the proxy's locked holdings per nonce, used to spot stray tokens
         let mut expect: BTreeMap<u64, BigInt> = BTreeMap::new();
-        let mut exp_add = |m: &mut BTreeMap<u64, BigInt>, k: u64, v: BigInt| {
+        let exp_add = |m: &mut BTreeMap<u64, BigInt>, k: u64, v: BigInt| {
             *m.entry(k).or_insert_with(BigInt::zero) += v;
         };
         let mut check_stray = false;
@@ -467,7 +488,7 @@ impl PxWorld {
                 let p = &rets[0];
                 resp.push(format!("k={} unl={}", p.1, self.unlock_of(p.1)));
             }
-            "advance" | "swap" | "bad" => resp.push("ok".into()),
+            "advance" | "swap" | "bad" | "transfer" => resp.push("ok".into()),
             "addLiq" => {
                 let (k, la) = parse_pays(w[2]).remove(0);
                 let oa = big(w[3]);
